@@ -737,5 +737,112 @@ func mainSlicePure() {
 		sample(map[string]any{"kind": "history (first 12 calls of one random history, int elements)", "calls": h.log})
 	}
 	stat("exhaustive_sequences_with_spare_or_shared_argument", n1+n2)
-	done(evals+s1+s2, dcount+n1+n2)
+	nn := nestedPurity()
+	stat("nested_slice_values_x_functions", nn)
+	done(evals+s1+s2+nn, dcount+n1+n2+nn)
+}
+
+// nestedPurity: a slice of slices is a slice value too. Every outer value made of 1..4 inner
+// slices drawn from {[], [1], [1 2]} (so: empty chunks in every position), once with cap == len and
+// once as the PopLast prefix of a longer outer value (spare capacity, a sibling sharing the array),
+// is handed to every function that takes it; afterwards the outer value, its inner slices and the
+// sibling must read exactly as before.
+func nestedPurity() int64 {
+	inner := [][]int{{}, {1}, {1, 2}}
+	type snap struct {
+		n    int
+		rows [][]int
+	}
+	take := func(v [][]int) snap {
+		s := snap{n: len(v)}
+		for _, r := range v {
+			s.rows = append(s.rows, append([]int{}, r...))
+		}
+		return s
+	}
+	same := func(v [][]int, s snap) bool {
+		if len(v) != s.n {
+			return false
+		}
+		for i := range v {
+			if len(v[i]) != len(s.rows[i]) {
+				return false
+			}
+			for j := range v[i] {
+				if v[i][j] != s.rows[i][j] {
+					return false
+				}
+			}
+		}
+		return true
+	}
+	fns := []struct {
+		name string
+		f    func(v [][]int)
+	}{
+		{"Concat", func(v [][]int) { slice.Concat(v) }},
+		{"Collect", func(v [][]int) { slice.Collect(func(r []int) []int { return r }, v) }},
+		{"Map", func(v [][]int) { slice.Map(func(r []int) int { return len(r) }, v) }},
+		{"Filter", func(v [][]int) { slice.Filter(func(r []int) bool { return len(r) > 0 }, v) }},
+		{"Append", func(v [][]int) { slice.Append(v, v) }},
+		{"PushLast", func(v [][]int) { slice.PushLast([]int{9}, v) }},
+		{"PushHead", func(v [][]int) { slice.PushHead([]int{9}, v) }},
+		{"Take", func(v [][]int) { slice.Take(len(v)/2, v) }},
+		{"Skip", func(v [][]int) { slice.Skip(len(v)/2, v) }},
+		{"Tail", func(v [][]int) { slice.Tail(v) }},
+		{"PopLast", func(v [][]int) { slice.PopLast(v) }},
+		{"Zip", func(v [][]int) { slice.Zip(v, v) }},
+		{"Fold", func(v [][]int) { slice.Fold(func(a int, r []int) int { return a + len(r) }, 0, v) }},
+		{"Forall", func(v [][]int) { slice.Forall(func(r []int) bool { return true }, v) }},
+		{"TryFind", func(v [][]int) { slice.TryFind(func(r []int) bool { return len(r) == 2 }, v) }},
+		{"Mapi", func(v [][]int) { slice.Mapi(func(i int, r []int) int { return i + len(r) }, v) }},
+		{"Length", func(v [][]int) { slice.Length(v) }},
+		{"Last", func(v [][]int) { slice.Last(v) }},
+	}
+	var count int64
+	var rec func(cur []int)
+	rec = func(cur []int) {
+		if len(cur) > 0 {
+			for _, fn := range fns {
+				for variant := 0; variant < 2; variant++ {
+					// fresh values for every call
+					var v, sibling [][]int
+					if variant == 0 {
+						for _, k := range cur {
+							v = append(v, append([]int{}, inner[k]...))
+						}
+						v = v[:len(v):len(v)]
+					} else {
+						longer := make([][]int, 0, len(cur)+2)
+						for _, k := range cur {
+							longer = append(longer, append([]int{}, inner[k]...))
+						}
+						longer = append(longer, []int{7, 7})
+						sibling = longer
+						v = slice.PopLast(longer)
+					}
+					sv, ss := take(v), take(sibling)
+					func() {
+						defer func() { recover() }()
+						fn.f(v)
+					}()
+					count++
+					if !same(v, sv) {
+						viol("nested-mutated-by:"+fn.name, "slice."+fn.name+" changed a slice of slices it was given", map[string]any{"before": sv.rows, "after": v, "variant": variant})
+					}
+					if variant == 1 && !same(sibling, ss) {
+						viol("nested-sibling-mutated-by:"+fn.name, "slice."+fn.name+" changed a value sharing the outer array of its argument", map[string]any{"before": ss.rows, "after": sibling})
+					}
+				}
+			}
+		}
+		if len(cur) == 4 {
+			return
+		}
+		for k := range inner {
+			rec(append(append([]int{}, cur...), k))
+		}
+	}
+	rec(nil)
+	return count
 }
